@@ -631,6 +631,20 @@ def c04_case(ctx: Ctx, case: dict):
             ctx.violate(f"C04/{backend}/array-length", f"rhs returns {rhs.shape[0]} / monitor_values {mon.shape[0]} entries; "
                         f"{len(lay['state'])} states and {len(lay['monitor'])} monitored names are declared", case={**case, "points": [pt]})
             return
+        # a step of size zero gives the states back, slot by slot: the schemes read X from and write X into slot state_index(X)
+        if np.all(np.isfinite(rhs)):
+            for sch_fn in ("explicit_euler", "generalized_rush_larsen"):
+                try:
+                    z = np.asarray(oracle.call_py(getattr(mod, sch_fn), "stdp", states=s, t=pt["t"], dt=0.0, parameters=p, missing=mv), dtype=float)
+                except Exception:
+                    continue
+                ctx.count("zero_steps")
+                if z.shape == s.shape and np.all(np.isfinite(z)) and not np.allclose(z, s, rtol=1e-12, atol=0.0):
+                    i_bad = int(np.argmax(~np.isclose(z, s, rtol=1e-12, atol=0.0)))
+                    ctx.violate(f"C04/{backend}/scheme-slot", f"{sch_fn} with dt = 0 returns {z[i_bad]!r} in slot {i_bad} ({lay['state'][i_bad]}), the state there is {s[i_bad]!r}"
+                                + (" (the same values in other slots)" if sorted(z.tolist()) == sorted(s.tolist()) else ""),
+                                case={**case, "points": [pt]})
+                    return
         slots = {nme: i for i, nme in enumerate(lay["monitor"])}
         ok, skip, bad = oracle.compare_outputs(mon, exact, slots, spread, "monitor")
         ctx.count("values_ok", ok)
@@ -706,7 +720,7 @@ def make_run(case_fn, quick, thorough, cfg_fn=None, extra=None, quick_s=150, tho
 
 def c04_run(ctx: Ctx):
     """NumPy on every case, JAX (incl. models with more than 10 states) on every third"""
-    n = ctx.n(14, 400)
+    n = ctx.n(24, 400)
     for k in range(n):
         cfg = gen.ModelCfg()
         backend = "numpy"
